@@ -123,9 +123,12 @@ impl ActTask for Act {
                     task.set_state(TaskState::Completed);
                 }
 
-                if let Some(next) = &task.node.next().upgrade() {
-                    ctx.sched_task(next);
-                    return Ok(true);
+                // an act that waits for its completion (a sub process call) has no successor yet
+                if task.state().is_completed() {
+                    if let Some(next) = &task.node.next().upgrade() {
+                        ctx.sched_task(next);
+                        return Ok(true);
+                    }
                 }
             }
         } else if state.is_skip() || state.is_success() {
